@@ -202,18 +202,22 @@ class Gfa(Lines,GraphOperations,RGFA):
     """
     if self._progress:
       linecount = 0
-      with open(filename) as f:
+      with open(filename, errors = "replace") as f:
         for line in f:
           linecount += 1
       # TODO: better implementation of linecount
       self._progress_log_init("read_file", "lines", linecount,
                               "Parsing file {}".format(filename)+
                               " containing {} lines".format(linecount))
-    with open(filename) as f:
-      for line in f:
-        self.add_line(line.rstrip('\r\n'))
-        if self._progress:
-          self._progress_log("read_file")
+    try:
+      with open(filename) as f:
+        for line in f:
+          self.add_line(line.rstrip('\r\n'))
+          if self._progress:
+            self._progress_log("read_file")
+    except UnicodeDecodeError as err:
+      raise gfapy.FormatError(
+        "File {} is not a text file: {}".format(filename, err)) from err
     if self._line_queue:
       self._version = self._version_guess
       self.process_line_queue()
